@@ -4,6 +4,6 @@ CONSTANT IfmDepths = {1, 2, 7, 8, 9, 15, 16, 17, 31, 32, 33, 40}
 CONSTANT KernelHs = {1, 2, 3}
 CONSTANT KernelWs = {1, 2, 3}
 CONSTANT Decomposing = TRUE
-CONSTANT BlockDepths = {4, 8, 16, 24}
+CONSTANT BlockDepths = {4, 8, 12, 16, 24}
 INVARIANT OrderIsBijection
 CHECK_DEADLOCK FALSE
